@@ -12,10 +12,15 @@ FLOATY = [0.1, 0.2, 0.3, 0.7, 1.1, 2.2, 3.3, 0.6, 0.05]
 def random_case(prop, rng, tier):
     n = rng.randrange(1, 13 if tier == 'quick' else 25)
     tasks = []
+    dated = rng.random() < 0.3
     for i in range(n):
         t = {'id': i + 1, 'parent': None, 'est': rng.choice(EST + [None]), 'spent': rng.choice([None, None, '0', '1', '8']), 'member': True}
         if i and rng.random() < 0.5:
             t['parent'] = rng.randrange(i)
+        if dated and rng.random() < 0.5:
+            # dates left over from an earlier schedule or an import: the critical path is defined by work and links only
+            t['start'] = rng.randrange(0, 30)
+            t['end'] = t['start'] + rng.randrange(0, 20)
         tasks.append(t)
     if rng.random() < 0.2:
         for _ in range(rng.randrange(1, 3)):
@@ -46,6 +51,10 @@ def build(case):
             kw['estimate'] = float(t['est']) if case.get('floaty') else fam_sched.py_num(t['est'], i % 2 == 0)
         if t['spent'] is not None:
             kw['spent'] = fam_sched.py_num(t['spent'], False)
+        if t.get('start') is not None:
+            from datetime import datetime, timedelta
+            kw['start'] = datetime(2024, 1, 1) + timedelta(days=t['start'])
+            kw['end'] = datetime(2024, 1, 1) + timedelta(days=t['end'], hours=12)
         o = Task(t['id'], f't{i}', **kw)
         if t['member']:
             if t['parent'] is None:
